@@ -8,6 +8,7 @@ import (
 	"sort"
 	"strings"
 	"sync"
+	"sync/atomic"
 	"time"
 
 	"github.com/mycoria/mycoria/config"
@@ -60,7 +61,7 @@ type VLink struct {
 	Label   m.SwitchLabel
 	Lat     uint16
 	IsLite  bool
-	closing bool
+	closing atomic.Bool
 	in, out uint64
 }
 
@@ -84,12 +85,11 @@ func (l *VLink) BytesOut() uint64                 { l.W.mu.Lock(); defer l.W.mu.
 func (l *VLink) FlowControlIndicator() frame.FlowControlFlag {
 	return frame.FlowControlFlagIncreaseFlow
 }
-func (l *VLink) IsClosing() bool { return l.closing }
+func (l *VLink) IsClosing() bool { return l.closing.Load() }
 func (l *VLink) Close(log func()) {
-	if l.closing {
+	if !l.closing.CompareAndSwap(false, true) {
 		return
 	}
-	l.closing = true
 	l.From.Peering().RemoveLink(l)
 }
 func (l *VLink) SendPriority(f frame.Frame) error { return l.emit(f, true) }
@@ -99,7 +99,7 @@ func (l *VLink) Send(f frame.Frame) error         { return l.emit(f, false) }
 // after writing, and a frame that lacks the link margins is dropped.
 func (l *VLink) emit(f frame.Frame, prio bool) error {
 	defer f.ReturnToPool()
-	if l.closing {
+	if l.closing.Load() {
 		return nil
 	}
 	data, err := f.FrameDataWithMargins(peering.FrameOffset, peering.FrameOverhead)
